@@ -103,14 +103,16 @@ def make_field_fault_family(k, exc_obj, direction):
     return E, F, Data, Dflt
 
 
-def make_family(fam, binary, k, exc_obj, direction, iter_read=False):
+def make_family(fam, binary, k, exc_obj, direction, iter_read=False, own_slot=False):
     """element classes whose read/write handles one chunk, the k-th call raising exc_obj;
     with `iter_read` the failing element first consumes a line by ITERATING the file
     (`next(file)`), which is how a read-to-the-end element loops over its lines"""
     counter = {"n": 0}
 
     def do_write(self, file, *a, **kw):
-        i = self.data
+        # with `own_slot` the element keeps what it holds in a slot of its own and leaves the inherited
+        # `data` slot None: it is written (and may fail) like any other element
+        i = self._own if own_slot else self.data
         if i == k and direction == "write":
             raise exc_obj
         file.write(chunk_of(i, binary))
@@ -129,7 +131,7 @@ def make_family(fam, binary, k, exc_obj, direction, iter_read=False):
         self.data = file.readline()
         return True
 
-    ns = {"read": do_read, "write": do_write, "__eq__": lambda s, o: isinstance(o, s.__class__) and s.data == o.data, "__hash__": None, "__slots__": []}
+    ns = {"read": do_read, "write": do_write, "__eq__": lambda s, o: isinstance(o, s.__class__) and s.data == o.data, "__hash__": None, "__slots__": ["_own"] if own_slot else []}
     st = "BINARY" if binary else "TEXT"
     if fam == "register":
         from cfinterface.components.defaultregister import DefaultRegister as Dflt
@@ -210,14 +212,19 @@ def run_impl(case):
         if ff:
             E, F, Data, Dflt = make_field_fault_family(k, exc_obj, direction)
         else:
-            E, F, Data, Dflt = make_family(fam, binary, k, exc_obj, direction, case.get("iter_read", False))
+            E, F, Data, Dflt = make_family(fam, binary, k, exc_obj, direction, case.get("iter_read", False), bool(case.get("own_slot")))
         expected_prefix = (b"" if binary else "").join(chunk_of(i, binary, ff) for i in range(n if k is None else k))
         raised = None
         out = {"buffer_closed": False, "buffer_at_end": True, "output_is_prefix": True}
         if direction == "write":
             data = Data(Dflt(data=b"" if (binary and fam != "register") else ""))
             for i in range(n):
-                data.append(E(data=[i]) if ff else E(data=i))
+                if case.get("own_slot"):
+                    e = E()
+                    e._own = i
+                    data.append(e)
+                else:
+                    data.append(E(data=[i]) if ff else E(data=i))
             f = F(data=data)
             dest_path = os.path.join(d, "out.dat")
             if where == "existingpath":
@@ -355,6 +362,8 @@ def all_cases():
                                     yield {"family": fam, "binary": binary, "direction": direction, "where": where, "n": n, "k": k, "exc": exc, "forward": True}
                                 if fam == "register" and not binary and k is not None and exc in ("KeyError", "Custom") and where in ("path", "buffer"):
                                     yield {"family": fam, "binary": binary, "direction": direction, "where": where, "n": n, "k": k, "exc": exc, "field_fault": True}
+                                if direction == "write" and where in ("path", "buffer") and exc in ("ValueError", "Custom") and (k is None or k % 2 == 0):
+                                    yield {"family": fam, "binary": binary, "direction": direction, "where": where, "n": n, "k": k, "exc": exc, "own_slot": True}
                                 if direction == "read" and k is not None and exc in ("ValueError", "Custom"):
                                     yield {"family": fam, "binary": binary, "direction": direction, "where": where, "n": n, "k": k, "exc": exc, "iter_read": True}
                     for n, k in ((1, 0), (3, 0), (3, 1), (4, 3), (8, 5)):
